@@ -8,7 +8,7 @@ from vlib.props import c13
 PLUGINS = ["fmap", "join"]
 OPS = {"fmap", "fmaps", "join", "joins"}
 
-RULE = ("fmap: 32 (element, result) type pairs (every element type of C13/C14 twice, 8 result types incl. pointers, slices, structs) x "
+RULE = ("fmap: 36 (element, result) type pairs (every element type of C13/C14 twice, 8 result types incl. pointers, slices, structs) x "
         "the boundary-biased list pool (nil, empty, every small length, aliased elements) with the mapped function scripted by a result "
         "list and its call log in the answer; fmaps: 8 result types x strings over ASCII, 2-, 3- and 4-byte runes, boundary code points and "
         "invalid encodings (lone continuation bytes, truncated sequences, overlong forms, surrogates, > U+10FFFF, 0xFF, random byte "
